@@ -51,6 +51,38 @@ func init() {
 			if op.depth != 0 {
 				c.Fail("spec", "Parse", tag, fmt.Sprintf("graph %d", g), fmt.Sprintf("%d files left open", op.depth), "0", "every file opened for an include is closed")
 			}
+			// the statement's own oracle on the graph: a cycle is reachable from the root iff some file
+			// reachable from the root can reach itself; then and only then RecursiveInclude is the answer
+			reach := func(from int) map[int]bool {
+				seen := map[int]bool{}
+				var dfs func(i int)
+				dfs = func(i int) {
+					for j := 0; j < nf; j++ {
+						if g&(1<<uint(i*nf+j)) != 0 && !seen[j] {
+							seen[j] = true
+							dfs(j)
+						}
+					}
+				}
+				dfs(from)
+				return seen
+			}
+			fromRoot := reach(0)
+			fromRoot[0] = true
+			cyclic := false
+			for i := range fromRoot {
+				if reach(i)[i] {
+					cyclic = true
+				}
+			}
+			gotCycle := len(t.parts) > 1 && t.parts[0] == "i1" && t.parts[1] == "i11"
+			gotOK := len(t.parts) > 0 && t.parts[0] == "i0"
+			if cyclic && !gotCycle {
+				c.Fail("spec", "Parse", "graph-oracle", dc.rootText+fmt.Sprintf(" (graph %d on %d files)", g, nf), t.String(), "RecursiveIncludeError", "an include cycle reachable from the root is reported")
+			}
+			if !cyclic && !gotOK {
+				c.Fail("spec", "Parse", "graph-oracle", dc.rootText+fmt.Sprintf(" (graph %d on %d files)", g, nf), t.String(), "accepted", "an acyclic include graph (diamonds and repeated includes included) is accepted")
+			}
 			c.Add(Case{Req: dc.req(), Impl: t.String(), Tag: tag, NoSpec: true})
 		}
 		c.Res.Exhaustive = true
